@@ -59,8 +59,9 @@ try:
     for p in props:
         rc, o = sh(f"./check {p} {tier}", cwd="/verif", env=env)
         if rc != 0:
-            rules = sorted({l.split("[")[1].split("]")[0] for l in o.splitlines() if "[" in l and "]" in l and (l.startswith("  numba") or l.startswith("ANALYSIS"))})
-            fired[p] = {"exit": rc, "rules": rules, "lines": [l for l in o.splitlines() if l.startswith("  numba") or l.startswith("ANALYSIS-ERROR")][:4]}
+            rules = sorted({l.split("[")[1].split("]")[0] for l in o.splitlines() if "[" in l and "]" in l and l.startswith("  numba")})
+            err_rules = sorted({l.split("[")[1].split("]")[0] for l in o.splitlines() if "[" in l and "]" in l and l.startswith("ANALYSIS")})
+            fired[p] = {"exit": rc, "rules": rules, "error_rules": err_rules, "lines": [l for l in o.splitlines() if l.startswith("  numba") or l.startswith("ANALYSIS-ERROR")][:4]}
 finally:
     if in_repo:
         sh("git -C /repo checkout -- .")
